@@ -18,6 +18,8 @@ struct Elem {
     size_t slot;            // index in Inst::all (O(1) removal)
     struct cstl_slist_node node;
     uint64_t guard2;
+    struct cstl_slist_node node2;   // "mixed offsets" cases: list 1 threads its elements through this member
+    uint64_t guard3;
 };
 const uint64_t GUARD1 = 0x5EED5EED0BADF00Dull, GUARD2 = 0xFEEDFACECAFEBEEFull;
 
@@ -42,17 +44,21 @@ const int MAXLIVE[] = {1000000, 2, 3, 4, 5, 6, 8, 12};
 
 int g_cmp_calls;
 void *g_cmp_priv_expected;
+// any negative / zero / positive int is a valid comparison result: the plain difference, +-1, and values that do not
+// fit a short or a char (sort op byte, bits 1-2)
+int g_cmp_mag;
+static int cmp_scale(int d) { return g_cmp_mag == 1 ? (d < 0 ? -2000000000 : d > 0 ? 2000000000 : 0) : g_cmp_mag == 2 ? (d > 0) - (d < 0) : g_cmp_mag == 3 ? d * 300 : d; }
 int cmp_asc(const void *a, const void *b, void *p)
 {
     CHECK_NOTHROW(p == g_cmp_priv_expected, "C13.sort.priv", "compare priv pointer changed");
     g_cmp_calls++;
-    return ((const Elem *)a)->key - ((const Elem *)b)->key;
+    return cmp_scale(((const Elem *)a)->key - ((const Elem *)b)->key);
 }
 int cmp_desc(const void *a, const void *b, void *p)
 {
     CHECK_NOTHROW(p == g_cmp_priv_expected, "C13.sort.priv", "compare priv pointer changed");
     g_cmp_calls++;
-    return ((const Elem *)b)->key - ((const Elem *)a)->key;
+    return cmp_scale(((const Elem *)b)->key - ((const Elem *)a)->key);
 }
 
 struct Inst;
@@ -75,7 +81,8 @@ struct Inst {
     size_t clear_calls;
     bool twin_of_cleared;
 
-    void init(const char *t, int n)
+    size_t off[3];              // which node member each list object uses (exchanged by swap)
+    void init(const char *t, int n, bool mixed = false)
     {
         tag = t;
         nlists = n;
@@ -84,7 +91,8 @@ struct Inst {
         keyof.clear();
         for (int i = 0; i < 3; i++) {
             model[i].clear();
-            cstl_slist_init(&sl[i], offsetof(Elem, node));
+            off[i] = (mixed && i == 1) ? offsetof(Elem, node2) : offsetof(Elem, node);
+            cstl_slist_init(&sl[i], off[i]);
         }
     }
     Elem *mk(int key)
@@ -96,6 +104,8 @@ struct Inst {
         e->guard1 = GUARD1;
         e->guard2 = GUARD2;
         e->node.n = (struct cstl_slist_node *)0x5a5a5a5a5a5a5a5aull;
+        e->node2.n = (struct cstl_slist_node *)0x5a5a5a5a5a5a5a5aull;
+        e->guard3 = GUARD2;
         if ((size_t)e->id >= keyof.size()) keyof.resize(e->id + 1);
         keyof[e->id] = key;
         e->slot = all.size();
@@ -185,8 +195,9 @@ void audit(Inst &in, int li, Obs *obs, const char *clause_pfx)
         CHECK(vc.seen[i] == m[i], cl, "%s L%d traversal position %zu differs from the reference", in.tag, li, i);
     snprintf(cl, sizeof cl, "%s.payload", clause_pfx);
     for (Elem *e : m)
-        CHECK(e->guard1 == GUARD1 && e->guard2 == GUARD2 && (size_t)e->id < in.keyof.size() && e->key == in.keyof[e->id], cl,
-              "%s L%d the library wrote into an element outside its list node", in.tag, li);
+        CHECK(e->guard1 == GUARD1 && e->guard2 == GUARD2 && e->guard3 == GUARD2 && (size_t)e->id < in.keyof.size() && e->key == in.keyof[e->id] &&
+              (in.off[li] == offsetof(Elem, node) ? e->node2.n : e->node.n) == (struct cstl_slist_node *)0x5a5a5a5a5a5a5a5aull, cl,
+              "%s L%d the library wrote into an element outside the list node this list links", in.tag, li);
 }
 
 std::string seq_str(const std::vector<Elem *> &m)
@@ -212,7 +223,7 @@ std::string peek_state(Inst &in)
         if (l->t == &l->h) tailpos = -1;
         s += "L";
         for (struct cstl_slist_node *c = l->h.n; c && n < bound; c = c->n, n++) {
-            Elem *e = (Elem *)((char *)c - offsetof(Elem, node));
+            Elem *e = (Elem *)((char *)c - in.off[li]);
             s += (char)('a' + e->key);
             if (l->t == c) tailpos = (long)n;
         }
@@ -307,6 +318,7 @@ void apply(Inst &in, CaseCtx &cx, int op, uint8_t a, uint8_t b, int K, size_t ma
         break;
     case SORT: {
         g_cmp_priv_expected = &in;
+        g_cmp_mag = (b >> 1) & 3;
         LIB(cstl_slist_sort(l, (b & 1) ? cmp_desc : cmp_asc, &in));
         TRACE("%s L%d.sort %s (n=%zu)", in.tag, li, (b & 1) ? "desc" : "asc", m.size());
         // sort need not be stable: take the order from the list itself, but
@@ -335,6 +347,7 @@ void apply(Inst &in, CaseCtx &cx, int op, uint8_t a, uint8_t b, int K, size_t ma
     case CONCAT: {
         if (in.nlists < 2) { CNT("noop.concat"); TRACE("concat noop"); return; }
         int si = (li + 1 + (b % (in.nlists - 1))) % in.nlists;
+        if (in.off[li] != in.off[si]) { CNT("noop.concat_mixed_offsets"); TRACE("concat noop (the two lists link different members)"); return; }
         LIB(cstl_slist_concat(l, &in.sl[si]));
         TRACE("%s L%d.concat L%d (%zu += %zu)", in.tag, li, si, m.size(), in.model[si].size());
         m.insert(m.end(), in.model[si].begin(), in.model[si].end());
@@ -348,6 +361,8 @@ void apply(Inst &in, CaseCtx &cx, int op, uint8_t a, uint8_t b, int K, size_t ma
         LIB(cstl_slist_swap(l, &in.sl[si]));
         TRACE("%s L%d.swap L%d (%zu <-> %zu)", in.tag, li, si, m.size(), in.model[si].size());
         m.swap(in.model[si]);
+        std::swap(in.off[li], in.off[si]);      // the list objects exchange everything, the member they link included
+        if (in.off[li] != in.off[si]) CNT("class.swap.mixed_offsets");
         *pred_out = P_SWAP;
         break;
     }
@@ -411,10 +426,11 @@ void vf_run(const uint8_t *data, size_t len)
     int prof = cur.u8() % NPROFILES;
     uint8_t flags = cur.u8();
     bool auto_pb = flags & 1;
+    bool mixed = (flags & 2) && nl >= 2;
     CaseCtx cx{};
     cx.c15 = g_prop == "C15";
-    A.init("A", nl);
-    B.init("B", nl);
+    A.init("A", nl, mixed);
+    B.init("B", nl, mixed);
     bool twin = false;          // C15: after the first clear every op also runs on a fresh twin
     std::vector<uint8_t> tab;
     for (int o = 0; o < NOPS; o++) for (int k = 0; k < PROFILES[prof][o]; k++) tab.push_back((uint8_t)o);
@@ -447,6 +463,7 @@ void vf_run(const uint8_t *data, size_t len)
             twin = true;
             B.next_id = A.next_id;
             for (int i = 0; i < nl; i++) {
+                if (B.off[i] != A.off[i]) { B.off[i] = A.off[i]; cstl_slist_init(&B.sl[i], B.off[i]); }   // (swaps moved the offsets around)
                 for (Elem *e : A.model[i]) {
                     Elem *t = B.mk(e->key);
                     t->id = e->id;
@@ -527,7 +544,7 @@ void vf_gen(Rng &r, std::vector<uint8_t> &out)
     out.push_back(r.chance(3, 4) ? 0 : r.byte()); // max live: mostly unbounded
     if (c15) out.push_back(r.chance(1, 2) ? 5 : r.byte());
     else out.push_back(r.byte());                // profile
-    out.push_back(r.byte());                     // flags
+    out.push_back((uint8_t)((r.byte() & ~2) | (r.chance(1, 4) ? 2 : 0)));     // flags: auto push_back, mixed node offsets (1 in 4)
     size_t n = r.chance(2, 3) ? 1 + r.below(12) : 1 + r.below(200);
     if (!c15 && r.chance(1, 30000)) { n = 70000 + r.below(70000); out[2] = 0; out[3] = 6; out[4] = 0; }   // scale run
     for (size_t i = 0; i < n; i++) { out.push_back(r.byte() % 251); out.push_back(r.byte()); out.push_back(r.byte()); }
@@ -556,7 +573,7 @@ bool vf_scope(const std::string &name, Scope &s)
             // maximum length (an unpruned sequence of depth d cannot build more than d elements)
             case INSERT_AFTER: for (int pos = 0; pos < npos; pos++) bs.push_back((pos << 3) | 0); break;
             case ERASE_AFTER: for (int pos = 0; pos < npos - 1 || pos < 1; pos++) bs.push_back(pos); break;
-            case SORT: bs = {0, 1}; break;
+            case SORT: bs = {0, 1, 2, 4 | 1}; break;      // asc, desc, asc with +-2e9 results, desc with +-1
             case CONCAT: case SWAP: for (int k = 0; k < nl - 1; k++) bs.push_back(k); break;
             case FOREACH_STOP: bs = {0, 4 | 1}; break;
             default: bs = {0};
